@@ -229,7 +229,7 @@ def run(tier, seed):
     step = 8 if tier == "quick" else 32
     blocks = [(tier, i, min(i + step, len(ms)), hist_len) for i in range(0, len(ms), step)]
     total, capped = run_blocks(worker, blocks, seed=seed)
-    rep.add_violations(total.violations)
+    rep.add_violations(total.violations, total.hist_sig)
     rep.harness_errors = total.stats.get("harness_errors", 0)
     rep.notes.extend(total.notes)
     rep.coverage = {
